@@ -52,3 +52,19 @@ package logging
 //@   props C16
 //@   ensures default_name: trim_space(cfg.Trace.Header) == "" ==> result == "X-Trace-ID"
 //@   ensures custom_name: trim_space(cfg.Trace.Header) != "" ==> result == trim_space(cfg.Trace.Header)
+
+// The handler installed by RequestContextMiddleware: sets the ID headers before the chain runs (so every
+// response path carries them), calls next exactly once with the same writer and a request that differs only
+// in its context.
+//@ func enrichLogger
+//@   ensures result != nil
+//@ func contextWithLogger
+//@ func RequestContextMiddleware$1$1
+//@   props C16 C01
+//@   may_panic
+//@   requires w != nil && r != nil && r.Header != nil && next != nil && hdrmap(ptr(w)) != ptr(r.Header) && hdrmap(ptr(w)) != 0
+//@   ensures next_exactly_once: calls(next) == 1
+//@   modifies *
+//@ func RequestContextMiddleware
+//@   props C16
+//@   ensures result != nil
